@@ -8,3 +8,6 @@ import WrglModel.Props.C05
 #print axioms Wrgl.C05_disjoint_no_conflict
 #print axioms Wrgl.C05_cols_model_extends_same
 #print axioms Wrgl.C05_unresolve_table_is_model
+#print axioms Wrgl.C05_tryResolve_cell_is_cellFold
+#print axioms Wrgl.C05_base_column_rule
+#print axioms Wrgl.C05_added_column_rule
